@@ -18,14 +18,32 @@ ImplTg(t, tk5, ds, de) ==
      ELSE LET p == ImplParse(Slice(t, tk5[i][2], tk5[i][3]), ds, de)
           IN [k |-> 1, st |-> p.st, name |-> p.name, attrs |-> p.attrs]]
 
-\* evaluator registry: a HashMap keyed by tag name - the removal-marker evaluator is inserted last
+\* the evaluators as written: `attrs.iter().find(..)` - the FIRST attribute named `to` / `name` decides
+FirstNamed(g, n) == LET S == {i \in 1..Len(g.attrs) : g.attrs[i].n = n} IN
+                    IF S = {} THEN 0 ELSE CHOOSE i \in S : \A j \in S : i <= j
+
+ImplMarkerDec(g, c) ==
+  LET i == FirstNamed(g, Str_name) IN
+  IF i = 0 THEN "keep" ELSE IF ~g.attrs[i].hv THEN "keep"
+  ELSE IF g.attrs[i].v \in c.targets THEN "remove" ELSE "keep"
+
+\* chrono's parser is transcribed only for the canonical and the listed malformed spellings
+ImplTimeDec(g, c) ==
+  LET i == FirstNamed(g, Str_to) IN
+  IF i = 0 THEN "keep" ELSE IF ~g.attrs[i].hv THEN "keep"
+  ELSE LET v == g.attrs[i].v IN
+       IF MalformedOffset(c.off) \/ MalformedTime(v) THEN "keep"
+       ELSE IF CanonTime(v) /\ CanonOffset(c.off)
+            THEN (IF AtOrAfter(c.now, ExpiryInstant(v, c.off)) THEN "remove" ELSE "keep")
+       ELSE "unknown"
+
+\* evaluator registry: a HashMap keyed by tag name - the removal-marker evaluator is inserted last and wins
+\* when both tag names are equal
 DecOf(g, c) ==
   IF g.k = 0 \/ g.st # "ok" THEN "none"
   ELSE IF \E i \in 1..Len(g.attrs) : g.attrs[i].n = Str_skip THEN "none"
-  ELSE IF g.name = c.rm THEN (LET d == MarkerDecision(g, c) IN
-                              IF d = "ready" THEN "remove" ELSE IF d = "pending" THEN "keep" ELSE "unknown")
-  ELSE IF g.name = c.tl THEN (LET d == TimeDecision(g, c) IN
-                              IF d = "ready" THEN "remove" ELSE IF d = "pending" THEN "keep" ELSE "unknown")
+  ELSE IF g.name = c.rm THEN ImplMarkerDec(g, c)
+  ELSE IF g.name = c.tl THEN ImplTimeDec(g, c)
   ELSE "none"
 
 ImplStages(t, c) ==
